@@ -4,7 +4,8 @@
    number of points with the free corners first.  All statements hold for every
    answer of every oracle (losses, volumes, geometric predicates, chosen points). *)
 From Coq Require Import ZArith.
-From AV Require Import Base.Prelude Base.NatSet Model.Tri Model.LND Proofs.TriProofs.
+From Coq Require Import Sorted.
+From AV Require Import Base.Prelude Base.NatSet Model.Tri Model.LND Proofs.TriProofs Proofs.LNDQueue.
 
 (* ---------------- dictionaries keyed by simplices ---------------- *)
 Lemma sset_keys_In {A} k (v : A) l x : In x (skeys (sset k v l)) <-> x = k \/ In x (skeys l).
@@ -69,6 +70,26 @@ Qed.
 Lemma shas_keys {A} k (l : list (simplex * A)) : shas k l = true <-> In k (skeys l).
 Proof.
   unfold shas. rewrite sassoc_keys. destruct (sassoc k l); split; eauto; try discriminate. intros [v H]; discriminate.
+Qed.
+
+Lemma sadd_NoDup s l : NoDup l -> NoDup (sadd s l).
+Proof.
+  intros H. unfold sadd. destruct (smem s l) eqn:E; auto.
+  apply NoDup_app_disj; auto.
+  - constructor; [intros []|constructor].
+  - intros x Hx [<-|[]]. apply smem_false in E. contradiction.
+Qed.
+
+Lemma dedup_spec l : (forall x, In x (dedup l) <-> In x l) /\ NoDup (dedup l).
+Proof.
+  unfold dedup.
+  assert (H : forall l acc, (forall x, In x (fold_left (fun a y => sadd y a) l acc) <-> In x acc \/ In x l) /\
+                            (NoDup acc -> NoDup (fold_left (fun a y => sadd y a) l acc))).
+  { clear l. induction l as [|y l IH]; intros acc; cbn [fold_left In]; [split; [intros x; tauto|auto]|].
+    destruct (IH (sadd y acc)) as [H1 H2]. split.
+    - intros x. rewrite H1, sadd_In. intuition (subst; auto).
+    - intros Hn. apply H2. apply sadd_NoDup; auto. }
+  destruct (H l []) as [H1 H2]. split; [intros x; rewrite H1; cbn [In]; tauto|apply H2; constructor].
 Qed.
 
 Lemma wf_simplices_spec n ss : wf_simplices n ss = true -> forall s v, In s ss -> In v s -> v < n.
@@ -202,13 +223,14 @@ Section LNDProofs.
   Proof.
     unfold update_losses.
     set (s1 := set_subs _ _).
-    destruct (fold_addone_spec E (unbound_of fix12 E s del) add s1) as (A1 & A2 & A3 & A4 & A5).
+    destruct (fold_addone_spec E (unbound_of fix12 E s del) (dedup add) s1) as (A1 & A2 & A3 & A4 & A5).
+    destruct (dedup_spec add) as [Hdd _].
     cbv zeta in *. repeat split; try (rewrite ?A1, ?A2, ?A3, ?A4; reflexivity).
     - apply A5 in H. tauto.
     - intros Hx. destruct (A5 H) as [_ Hk]. apply Hk in Hx. unfold s1 in Hx. cbn [l_losses set_subs set_losses] in Hx.
-      rewrite fold_sdel_keys_In in Hx. tauto.
+      rewrite fold_sdel_keys_In, Hdd in Hx. tauto.
     - intros Hx. destruct (A5 H) as [_ Hk]. apply Hk. unfold s1. cbn [l_losses set_subs set_losses].
-      rewrite fold_sdel_keys_In. tauto.
+      rewrite fold_sdel_keys_In, Hdd. tauto.
   Qed.
 
   (* ---------------- the state predicate of part A ---------------- *)
@@ -443,5 +465,471 @@ Section LNDProofs.
     destruct r as [x|]; [|exact A].
     destruct (failed s1) eqn:Ef; [exact A|].
     eapply ask_post_trans; [exact A|apply IH].
+  Qed.
+
+  (* ---------------- tell ---------------- *)
+  Definition hint_ok s E : bool :=
+    match e_hint E with
+    | Some (x :: sp) => smem (x :: sp) (cur_simplices s)
+    | Some [] => false
+    | None => match o_locate (e_main E) with [] => true | sp => smem sp (cur_simplices s) end
+    end.
+
+  Lemma hint_ok_legal s E p t : hint_ok s E = true -> l_tri s = Some t ->
+    Tri.legal_op t (AddPoint p (e_hint E) (e_main E)) = true.
+  Proof.
+    unfold hint_ok, cur_simplices. intros H Ht. rewrite Ht in H. cbn [Tri.legal_op].
+    destruct (e_hint E) as [[|x sp]|]; auto.
+  Qed.
+
+  Lemma PG_set_data dl s x : PG dl (set_data s x) <-> PG dl s.
+  Proof. unfold PG. reflexivity. Qed.
+
+  Lemma tell_spec E s p : let s' := tell E s p in
+    l_ok s' = l_ok s /\
+    (l_err s' = None -> e_inb E p = true -> hint_ok s E = true -> l_err s = None /\ (P s -> P s')).
+  Proof.
+    unfold LND.tell. destruct (nat_mem p (l_data s)) eqn:Em.
+    { cbv zeta. split; auto. }
+    set (s0 := set_pend s (nat_remove p (l_pend s))).
+    pose proof (touch_data s0 E) as [D1 D2]. pose proof (touch_ok s0 E) as D3.
+    set (s1 := touch E s0) in *.
+    set (s2 := set_data s1 (l_data s1 ++ [p])).
+    destruct (e_inb E p) eqn:Ei; cbn [negb].
+    2:{ cbv zeta. split; [exact D3|]. intros _ Hc. discriminate. }
+    set (s3 := if e_rescale E then recall E s2 else s2).
+    assert (H3 : forall dl, l_data s3 = l_data s2 /\ l_ok s3 = l_ok s2 /\
+              (l_err s3 = None -> l_err s2 = None /\
+                 ((l_tri s2 = None -> dl = l_data s2) -> PG dl s2 -> PG dl s3) /\
+                 (forall t, l_tri s2 = Some t -> l_tri s3 = Some t))).
+    { intros dl. unfold s3. destruct (e_rescale E).
+      - destruct (recall_spec dl s2 E) as (A1 & A2 & A3 & A4). cbv zeta in *. auto.
+      - repeat split; auto. }
+    destruct (l_tri s1) as [t|] eqn:Et1.
+    - (* a triangulation exists: insert the point *)
+      cbn [negb]. destruct (H3 (l_data s1)) as (B1 & B2 & B3).
+      destruct (l_tri s3) as [t3|] eqn:Et3.
+      2:{ cbv zeta. split; [rewrite B2; exact D3|]. intros He _ _. exfalso.
+          destruct (B3 He) as (_ & _ & B5). specialize (B5 t Et1). congruence. }
+      destruct (add_point d t3 p (e_hint E) (e_main E)) as [t' o] eqn:Eadd.
+      assert (Hok : forall x, l_ok (set_tri s3 x) = l_ok s) by (intros; cbn; rewrite B2; exact D3).
+      destruct o as [dl ad|why|].
+      + destruct (updl_spec E (set_tri s3 (Some t')) dl ad) as (U1 & U2 & U3 & U4 & U5). cbv zeta in *.
+        split; [rewrite U4; apply Hok|].
+        intros He _ Hh. destruct (U5 He) as [He3 Hk]. cbn [l_err set_tri] in He3.
+        destruct (B3 He3) as (He2 & B4 & B5). specialize (B5 t Et1). assert (t3 = t) by congruence. subst t3.
+        assert (He0 : l_err s = None) by (apply (touch_err s0 E) in He2; exact He2).
+        split; [exact He0|]. intros HP.
+        assert (HP1 : PG (l_data s1) s1).
+        { rewrite D1. unfold s1. apply touch_PG; [exact He2|intros _; reflexivity|exact HP]. }
+        assert (HP3 : PG (l_data s1) s3).
+        { apply B4; [intros Hn; cbn in Hn; congruence|]. apply PG_set_data. exact HP1. }
+        unfold PG in HP3. rewrite Et3 in HP3. destruct HP3 as (I1 & I2 & I3).
+        assert (Hleg : Tri.legal_op t (AddPoint p (e_hint E) (e_main E)) = true).
+        { destruct (l_tri s) as [ts|] eqn:Ets.
+          - assert (s1 = s0) by (apply (touch_tri_some s0 E ts); exact Ets).
+            assert (ts = t) by (unfold s1 in Et1; rewrite (touch_tri_some s0 E ts Ets) in Et1; cbn in Et1; congruence).
+            subst ts. eapply hint_ok_legal; eauto.
+          - unfold hint_ok, cur_simplices in Hh. rewrite Ets in Hh. cbn [Tri.legal_op].
+            destruct (e_hint E) as [[|x sp]|]; try discriminate.
+            destruct (o_locate (e_main E)); [reflexivity|discriminate]. }
+        destruct (add_point_spec nat d t p (e_hint E) (e_main E) t' (Accepted dl ad) I1 Hleg Eadd) as (J1 & J2 & J3 & J4).
+        unfold P, PG. rewrite U1, U2. cbn [l_tri set_tri l_data].
+        split; [exact J1|]. split.
+        * intros sp. rewrite Hk. cbn [l_losses set_tri]. rewrite I2. destruct J2 as [Jd Ja].
+          rewrite Ja. specialize (Jd sp). destruct (In_dec_s sp (simplices t')); destruct (In_dec_s sp (simplices t)); tauto.
+        * rewrite J3, I3, B1. reflexivity.
+      + cbv zeta. split; [destruct why; apply Hok|]. intros He. destruct why; discriminate.
+      + cbv zeta. split; [apply Hok|]. intros He. discriminate.
+    - (* no triangulation yet *)
+      cbn [negb]. destruct (H3 (l_data s2)) as (B1 & B2 & B3). cbv zeta.
+      split; [rewrite B2; exact D3|]. intros He _ _. destruct (B3 He) as (He2 & B4 & _).
+      assert (He0 : l_err s = None) by (apply (touch_err s0 E) in He2; exact He2).
+      split; [exact He0|]. intros HP. unfold P. rewrite B1. apply B4; auto.
+      apply PG_set_data. unfold PG. rewrite Et1.
+      assert (HP1 : PG (l_data s1) s1) by (rewrite D1; unfold s1; apply touch_PG; [exact He2|intros _; reflexivity|exact HP]).
+      unfold PG in HP1. rewrite Et1 in HP1. exact HP1.
+  Qed.
+
+  (* ---------------- remove_unfinished ---------------- *)
+  Lemma requeue_keeps s sp : keeps s (requeue rnd s sp).
+  Proof. unfold requeue. destruct (sassoc sp (l_losses s)); repeat split; auto. Qed.
+  Lemma fold_requeue_keeps : forall l s, keeps s (fold_left (requeue rnd) l s).
+  Proof.
+    induction l as [|a l IH]; intros s; cbn [fold_left]; [apply keeps_refl|].
+    eapply keeps_trans; [apply requeue_keeps|apply IH].
+  Qed.
+  Lemma rmu_keeps s : let s' := rmu s in
+    l_tri s' = l_tri s /\ l_losses s' = l_losses s /\ l_data s' = l_data s /\ l_ok s' = l_ok s /\ l_err s' = l_err s /\
+    l_pend s' = [] /\ l_subs s' = [].
+  Proof.
+    unfold remove_unfinished. destruct repaired.
+    - destruct (fold_requeue_keeps (skeys (l_subs s)) s) as (K1 & K2 & K3 & K4 & K5 & K6).
+      cbv zeta. cbn. repeat split; auto.
+      assert (H : forall l s0, l_err (fold_left (requeue rnd) l s0) = l_err s0).
+      { induction l as [|a l IH]; intros s0; cbn [fold_left]; auto. rewrite IH. unfold requeue.
+        destruct (sassoc a (l_losses s0)); reflexivity. }
+      apply H.
+    - cbv zeta. cbn. repeat split; auto.
+  Qed.
+
+  (* ---------------- histories ---------------- *)
+  Definition J s : Prop := l_ok s = true -> P s.
+
+  Lemma P_load s E : P (load s E) <-> P s.
+  Proof. unfold P, PG. reflexivity. Qed.
+
+  Lemma finish_J s pts : (l_err s = None -> l_ok s = true -> P s) -> J (fst (finish s pts)).
+  Proof.
+    unfold finish, J. destruct (l_err s) eqn:Ee; cbn [fst]; [cbn; discriminate|auto].
+  Qed.
+
+  Lemma legal_op_tell s p E : legal_op s (Tell p E) = true -> e_inb E p = true /\ hint_ok s E = true.
+  Proof.
+    cbn [LND.legal_op]. intros H. apply andb_true_iff in H as [H1 H2]. apply andb_true_iff in H1 as [H1 _].
+    split; auto.
+  Qed.
+
+  Lemma step_J s (o : op) : J s -> legal_op s o = true -> J (fst (step s o)).
+  Proof.
+    intros HJ Hl. destruct o as [p E|p E|n E| |E]; cbn [LND.step].
+    - apply finish_J. intros He Hok. destruct (tell_spec E (load s E) p) as (A1 & A2). cbv zeta in *.
+      apply legal_op_tell in Hl as [Hi Hh]. rewrite A1 in Hok.
+      destruct (A2 He Hi Hh) as [_ HP]. apply HP. apply P_load. apply HJ. exact Hok.
+    - apply finish_J. intros He Hok. destruct (tellp_post E (load s E) p None) as (A1 & A2 & A3).
+      destruct (A3 He) as [_ HP]. apply HP. apply P_load. apply HJ. apply A2 in Hok. exact Hok.
+    - pose proof (askn_post E n (load s E) []) as (A1 & A2 & A3).
+      destruct (askn E n (load s E) []) as [s' pts]. cbn [fst] in *.
+      apply finish_J. intros He Hok. destruct (A3 He) as [_ HP]. apply HP. apply P_load. apply HJ. apply A2 in Hok. exact Hok.
+    - apply finish_J. intros He Hok. destruct (rmu_keeps s) as (K1 & K2 & K3 & K4 & K5 & K6 & K7). cbv zeta in *.
+      unfold P, PG. rewrite K1, K2, K3. apply HJ. congruence.
+    - apply finish_J. intros He Hok. destruct (touch_post (load s E) E) as (A1 & A2 & A3).
+      destruct (A3 He) as [_ HP]. apply HP. apply P_load. apply HJ. apply A2 in Hok. exact Hok.
+  Qed.
+
+  Lemma run_cons s (o : op) h : run s (o :: h) = run (fst (step s o)) h.
+  Proof. reflexivity. Qed.
+
+  Lemma run_J : forall (h : list op) s, J s -> legal s h = true -> J (run s h).
+  Proof.
+    induction h as [|o h IH]; intros s HJ Hl; [exact HJ|].
+    cbn [LND.legal] in Hl. apply andb_true_iff in Hl as [H1 H2]. rewrite run_cons.
+    apply IH; auto. apply step_J; auto.
+  Qed.
+
+  Theorem one_loss_per_simplex (h : list op) :
+    legal (init_lnd L) h = true ->
+    let s := run (init_lnd L) h in
+    l_ok s = true ->
+    match l_tri s with
+    | Some t => (forall sp, In sp (skeys (l_losses s)) <-> In sp (simplices t)) /\ verts t = l_data s /\ Inv t
+    | None => l_losses s = []
+    end.
+  Proof.
+    intros Hl s Hok. assert (HJ : J s).
+    { apply run_J; auto. intros _. unfold P, PG. reflexivity. }
+    specialize (HJ Hok). unfold P, PG in HJ. destruct (l_tri s); [tauto|exact HJ].
+  Qed.
+
+  (* ---------------- loss() is the largest entry ---------------- *)
+  Section LossMax.
+    (* Python's < on the loss values is a strict weak order (true of floats without NaN) *)
+    Hypothesis lt_trans : forall a b c, lltb a b = true -> lltb b c = true -> lltb a c = true.
+    Hypothesis lt_negtrans : forall a b c, lltb a b = false -> lltb b c = false -> lltb a c = false.
+    Hypothesis lt_irrefl : forall a, lltb a a = false.
+
+    Lemma fold_max_spec : forall (l : list (simplex * L)) m0,
+      let r := fold_left (fun m kv => if lltb m (snd kv) then snd kv else m) l m0 in
+      (r = m0 \/ In r (map snd l)) /\ lltb r m0 = false /\ forall v, In v (map snd l) -> lltb r v = false.
+    Proof.
+      induction l as [|[k v] l IH]; intros m0; cbn [fold_left map snd In].
+      - split; [auto|]. split; [apply lt_irrefl|tauto].
+      - destruct (lltb m0 v) eqn:E.
+        + destruct (IH v) as (A1 & A2 & A3). cbv zeta in *. split; [destruct A1; auto|]. split.
+          * destruct (lltb (fold_left (fun m kv => if lltb m (snd kv) then snd kv else m) l v) m0) eqn:E2; auto.
+            rewrite (lt_trans _ _ _ E2 E) in A2. discriminate.
+          * intros x [<-|Hx]; auto.
+        + destruct (IH m0) as (A1 & A2 & A3). cbv zeta in *. split; [destruct A1; auto|]. split; auto.
+          intros x [<-|Hx]; auto. eapply lt_negtrans; eauto.
+    Qed.
+
+    Theorem loss_is_max s :
+      match l_tri s, l_losses s with
+      | Some _, _ :: _ => In (loss linf lltb s) (map snd (l_losses s)) /\
+                          forall v, In v (map snd (l_losses s)) -> lltb (loss linf lltb s) v = false
+      | _, _ => loss linf lltb s = linf
+      end.
+    Proof.
+      unfold loss. destruct (l_tri s); [|reflexivity]. destruct (l_losses s) as [|[k v] r]; [reflexivity|].
+      destruct (fold_max_spec r v) as (A1 & A2 & A3). cbv zeta in *. cbn [map snd In]. split.
+      - destruct A1 as [->|A1]; auto.
+      - intros x [<-|Hx]; auto.
+    Qed.
+  End LossMax.
+
+  (* ---------------- ask: the requested number of points, free corners first ---------------- *)
+  Lemma filter_drop_head (f f' : nat -> bool) c : forall l fc,
+    NoDup l -> filter f l = c :: fc -> (forall x, f' x = f x && negb (x =? c)) -> filter f' l = fc.
+  Proof.
+    induction l as [|a l IH]; intros fc Hnd Hf Hf'; cbn [filter] in *; [discriminate|].
+    inversion Hnd as [|? ? Hna Hnd']; subst.
+    destruct (f a) eqn:Ea.
+    - inversion Hf; subst. rewrite Hf', Ea, Nat.eqb_refl. cbn [andb negb].
+      apply filter_ext_in. intros x Hx. rewrite Hf'.
+      destruct (Nat.eqb_spec x c) as [->|Hne]; [contradiction|]. cbn [negb]. rewrite andb_true_r. reflexivity.
+    - rewrite Hf', Ea. cbn [andb]. apply IH; auto.
+  Qed.
+
+  Lemma nat_mem_iff x l l' c : (forall y, In y l' <-> In y l \/ y = c) -> nat_mem x l' = nat_mem x l || (x =? c).
+  Proof.
+    intros H. destruct (nat_mem x l') eqn:E1.
+    - apply nat_mem_In in E1. apply H in E1 as [E1|E1].
+      + apply nat_mem_In in E1. rewrite E1. reflexivity.
+      + subst. rewrite Nat.eqb_refl, orb_true_r. reflexivity.
+    - destruct (nat_mem x l) eqn:E2.
+      + apply nat_mem_In in E2. assert (In x l') by (apply H; auto). apply nat_mem_In in H0. congruence.
+      + destruct (Nat.eqb_spec x c) as [->|Hne]; auto.
+        assert (In c l') by (apply H; auto). apply nat_mem_In in H0. congruence.
+  Qed.
+
+  Lemma free_corners_after s s' c fc :
+    NoDup corners -> l_data s' = l_data s -> (forall x, In x (l_pend s') <-> In x (l_pend s) \/ x = c) ->
+    free_corners corners s = c :: fc -> free_corners corners s' = fc.
+  Proof.
+    intros Hnd Hd Hp Hf. unfold free_corners in *.
+    eapply filter_drop_head; eauto. intros x. cbv beta. rewrite Hd, (nat_mem_iff x _ _ c Hp).
+    destruct (nat_mem x (l_data s)), (nat_mem x (l_pend s)), (x =? c); reflexivity.
+  Qed.
+
+  Lemma askone_none E s s1 : askone E s = (s1, None) -> l_err s1 <> None.
+  Proof.
+    unfold ask_one. destruct (failed s) eqn:Ef.
+    { intros H; inversion H; subst. intros Hc. apply failed_err in Hc. congruence. }
+    destruct (free_corners corners s) as [|c fc]; [|intros H; inversion H].
+    destruct (l_tri (touch E s)) as [t|].
+    - destruct (pop_highest (touch E s) (l_queue (touch E s))) as [[[[loss sp] u] q']|].
+      2:{ intros H; inversion H; subst. cbn. discriminate. }
+      destruct (next_choice (set_queue (touch E s) q')) as [s2 p].
+      destruct (failed s2) eqn:Ef2.
+      + intros H; inversion H; subst. intros Hc. apply failed_err in Hc. congruence.
+      + intros H; inversion H.
+    - destruct (next_choice (touch E s)) as [s2 p].
+      destruct (failed s2) eqn:Ef2.
+      + intros H; inversion H; subst. intros Hc. apply failed_err in Hc. congruence.
+      + intros H; inversion H.
+  Qed.
+
+  Lemma askone_corner E s c fc : l_err s = None -> free_corners corners s = c :: fc ->
+    askone E s = (tellp E s c None, Some (c, linf)).
+  Proof.
+    intros He Hf. unfold ask_one. apply failed_err in He. rewrite He, Hf. reflexivity.
+  Qed.
+
+  Theorem ask_count_corners_first E :
+    (forall c, In c corners -> e_inb E c = true) -> NoDup corners ->
+    forall n s acc s' pts, askn E n s acc = (s', pts) -> l_err s' = None ->
+    exists pts', pts = rev acc ++ pts' /\ length pts' = n /\
+      let k := min n (length (free_corners corners s)) in
+      firstn k pts' = map (fun c => (c, linf)) (firstn k (free_corners corners s)).
+  Proof.
+    intros Hinb Hnd. induction n as [|n IH]; intros s acc s' pts Hask He; cbn [ask_n] in Hask.
+    { inversion Hask; subst. exists []. rewrite app_nil_r. repeat split; auto. }
+    destruct (askone E s) as [s1 r] eqn:E1.
+    destruct r as [x|].
+    2:{ inversion Hask; subst. apply askone_none in E1. contradiction. }
+    destruct (failed s1) eqn:Ef1.
+    { inversion Hask; subst. apply failed_err in He. congruence. }
+    destruct (IH s1 (x :: acc) s' pts Hask He) as (pts' & Hp & Hlen & Hk).
+    exists (x :: pts'). split; [rewrite Hp; cbn [rev]; rewrite <- app_assoc; reflexivity|].
+    split; [cbn [length]; rewrite Hlen; reflexivity|].
+    destruct (free_corners corners s) as [|c fc] eqn:Efc; [rewrite Nat.min_0_r; reflexivity|].
+    assert (He0 : l_err s = None).
+    { pose proof (askone_post E s) as (_ & _ & A). rewrite E1 in A. cbn [fst] in A. apply A. apply failed_err. exact Ef1. }
+    rewrite (askone_corner E s c fc He0 Efc) in E1. inversion E1; subst s1 x.
+    assert (Hfc : free_corners corners (tellp E s c None) = fc).
+    { destruct (tellp_spec E s c None) as (A1 & A2 & A3). cbv zeta in *.
+      apply failed_err in Ef1. destruct (A3 Ef1) as (_ & _ & A4).
+      eapply free_corners_after; eauto. intros x. rewrite A4.
+      assert (Hc : In c corners).
+      { assert (In c (free_corners corners s)) by (rewrite Efc; left; auto).
+        unfold free_corners in H. apply filter_In in H. tauto. }
+      rewrite (Hinb c Hc). tauto. }
+    rewrite Hfc in Hk. cbn [length]. rewrite <- Nat.succ_min_distr. cbn [firstn map]. f_equal. exact Hk.
+  Qed.
+
+  (* ====================================================================== *)
+  (* part B: the priority queue                                             *)
+  (* ====================================================================== *)
+  Notation qsorted := (queue_sorted rnd).
+
+  (* [X]: simplices exempt from the completeness clause (they are being processed) *)
+  Record QI (X : list simplex) s t : Prop := {
+    qi_sorted : qsorted (l_queue s);
+    qi_q1 : forall sp, In sp (simplices t) -> ~ In sp X -> shas sp (l_subs s) = false ->
+              exists loss, sassoc sp (l_losses s) = Some loss /\ In (loss, sp, None) (l_queue s);
+    qi_q3 : forall loss sp, In (loss, sp, None) (l_queue s) -> In sp (simplices t) ->
+              sassoc sp (l_losses s) = Some loss;
+    qi_q4 : forall loss sp u v, In (loss, sp, u) (l_queue s) -> In v sp -> v < nverts t;
+    qi_q5 : forall sp, In sp (skeys (l_subs s)) -> In sp (simplices t)
+  }.
+  Arguments qi_sorted {X s t}. Arguments qi_q1 {X s t}. Arguments qi_q3 {X s t}.
+  Arguments qi_q4 {X s t}. Arguments qi_q5 {X s t}.
+
+  Definition QS X s : Prop :=
+    match l_tri s with
+    | None => l_queue s = [] /\ l_subs s = []
+    | Some t => QI X s t
+    end.
+
+  Lemma QI_ext X s s' t :
+    l_queue s' = l_queue s -> l_subs s' = l_subs s -> l_losses s' = l_losses s -> QI X s t -> QI X s' t.
+  Proof. intros H1 H2 H3 [A B C D F]. constructor; rewrite ?H1, ?H2, ?H3; auto. Qed.
+
+  Lemma QI_weaken X Y s t : (forall sp, In sp Y -> In sp X) -> QI X s t -> QI Y s t.
+  Proof. intros H [A B C D F]. constructor; auto. Qed.
+
+  Lemma QI_drop sp X s t : shas sp (l_subs s) = true -> QI (sp :: X) s t -> QI X s t.
+  Proof.
+    intros Hs [A B C D F]. constructor; auto. intros sp0 H1 H2 H3. apply B; auto.
+    intros [<-|H]; [congruence|auto].
+  Qed.
+
+  Lemma shas_sset {A} k k' (v : A) l : shas k (sset k' v l) = simplex_eqb k k' || shas k l.
+  Proof.
+    unfold shas. destruct (simplex_eqb k k') eqn:E.
+    - apply simplex_eqb_eq in E. subst. rewrite sassoc_sset_same. reflexivity.
+    - rewrite sassoc_sset_other; [reflexivity|]. intros ->. rewrite simplex_eqb_refl in E. discriminate.
+  Qed.
+
+  (* (a) _update_subsimplex_losses *)
+  Lemma usl_QI X E s sp news t : Inv t -> In sp (simplices t) -> QI X s t -> QI X (usl E s sp news) t.
+  Proof.
+    intros HI Hsp HQ. unfold update_subsimplex_losses. destruct (sassoc sp (l_losses s)) as [loss|].
+    2:{ eapply QI_ext; eauto. }
+    destruct HQ as [A B C D F].
+    set (f := fun u => (lmul (e_svol E sp u) (ldiv loss (e_vol E sp)), sp, Some u)).
+    constructor; cbn [l_queue l_subs l_losses set_queue].
+    - apply (fold_queue_add_sorted rnd f). exact A.
+    - intros sp0 H1 H2 H3. destruct (B sp0 H1 H2 H3) as [l0 [G1 G2]]. exists l0. split; auto.
+      apply (fold_queue_add_In rnd f). auto.
+    - intros l0 sp0 Hin Hs. apply (fold_queue_add_In rnd f) in Hin as [Hin|[u [_ Hu]]]; [eauto|]. unfold f in Hu. congruence.
+    - intros l0 sp0 u0 v Hin Hv. apply (fold_queue_add_In rnd f) in Hin as [Hin|[u [_ Hu]]]; [eauto|].
+      unfold f in Hu. inversion Hu; subst. eapply (inv_range _ _ HI); eauto.
+    - exact F.
+  Qed.
+
+  Lemma usl_queue_In E s sp news loss0 sp0 u0 :
+    In (loss0, sp0, u0) (l_queue (usl E s sp news)) -> In (loss0, sp0, u0) (l_queue s) \/ (sp0 = sp /\ u0 <> None).
+  Proof.
+    unfold update_subsimplex_losses. destruct (sassoc sp (l_losses s)) as [loss|]; [|auto].
+    cbn [l_queue set_queue]. intros H.
+    apply (fold_queue_add_In rnd (fun u => (lmul (e_svol E sp u) (ldiv loss (e_vol E sp)), sp, Some u))) in H
+      as [H|[u [_ Hu]]]; auto. inversion Hu; subst. right. split; auto. discriminate.
+  Qed.
+
+  (* (b) _try_adding_pending_point_to_simplex *)
+  Lemma tryadd_subs E s p sp :
+    l_subs (fst (tryadd E s p sp)) = l_subs s \/ exists st', l_subs (fst (tryadd E s p sp)) = sset sp st' (l_subs s).
+  Proof.
+    unfold try_adding. destruct (failed s); auto. destruct (l_tri s); auto.
+    destruct (e_pis E p sp); cbn [negb]; auto.
+    destruct (add_point d _ p None (e_sub E p sp)) as [st' o]. right. exists st'.
+    destruct o as [dl ad|[]|]; reflexivity.
+  Qed.
+
+  Lemma tryadd_QI X E s p sp t : In sp (simplices t) -> QI X s t -> QI X (fst (tryadd E s p sp)) t.
+  Proof.
+    intros Hsp [A B C D F].
+    pose proof (tryadd_keeps E s p sp) as (_ & K2 & _). pose proof (tryadd_queue E s p sp) as Kq.
+    destruct (tryadd_subs E s p sp) as [Hs|[st' Hs]]; constructor; rewrite ?Kq, ?K2, ?Hs; auto.
+    - intros sp0 H1 H2 H3. rewrite shas_sset in H3. apply orb_false_iff in H3 as [_ H3]. auto.
+    - intros sp0 H. apply sset_keys_In in H as [->|H]; auto.
+  Qed.
+
+  Lemma fold_tryadd_QI X E sp t : In sp (simplices t) -> forall ps s,
+    QI X s t -> QI X (fold_left (fun a p => fst (tryadd E a p sp)) ps s) t.
+  Proof.
+    intros Hsp. induction ps as [|p ps IH]; intros s HQ; cbn [fold_left]; auto.
+    apply IH. apply tryadd_QI; auto.
+  Qed.
+
+  Lemma fold_tryadd_queue E sp : forall ps s, l_queue (fold_left (fun a p => fst (tryadd E a p sp)) ps s) = l_queue s.
+  Proof. induction ps as [|p ps IH]; intros s; cbn [fold_left]; auto. rewrite IH. apply tryadd_queue. Qed.
+
+  (* (c) one new simplex of _update_losses.  [todo]: new simplices not yet processed *)
+  Definition fresh (todo : list simplex) s : Prop :=
+    forall sp, In sp todo -> forall loss u, ~ In (loss, sp, u) (l_queue s).
+
+  Lemma addone_QI X E ub s sp todo t :
+    Inv t -> In sp (simplices t) -> ~ In sp todo ->
+    QI (sp :: todo ++ X) s t -> fresh (sp :: todo) s ->
+    l_err (addone E ub s sp) = None ->
+    QI (todo ++ X) (addone E ub s sp) t /\ fresh todo (addone E ub s sp).
+  Proof.
+    intros HI Hsp Hnt HQ Hfr He. unfold add_one_simplex in *. destruct (failed s) eqn:Ef.
+    { apply failed_err in He. congruence. }
+    set (loss := e_loss E sp) in *.
+    set (s1 := set_losses s (sset sp loss (l_losses s))) in *.
+    assert (HQ1 : QI (sp :: todo ++ X) s1 t).
+    { destruct HQ as [A B C D F]. constructor; cbn [l_queue l_subs l_losses s1 set_losses]; auto.
+      - intros sp0 H1 H2 H3. destruct (B sp0 H1 H2 H3) as [l0 [G1 G2]]. exists l0. split; auto.
+        rewrite sassoc_sset_other; auto. intros ->. apply H2. left; auto.
+      - intros l0 sp0 Hin Hs. rewrite sassoc_sset_other; [eauto|]. intros ->.
+        apply (Hfr sp (or_introl eq_refl) l0 None). exact Hin. }
+    set (s2 := fold_left (fun a p => fst (tryadd E a p sp)) ub s1) in *.
+    assert (HQ2 : QI (sp :: todo ++ X) s2 t) by (apply fold_tryadd_QI; auto).
+    assert (Hq2 : l_queue s2 = l_queue s) by (unfold s2; rewrite fold_tryadd_queue; reflexivity).
+    pose proof (fold_tryadd_keeps E sp ub s1) as (_ & K2 & _). fold s2 in K2. cbn [l_losses s1 set_losses] in K2.
+    destruct (failed s2) eqn:Ef2. { apply failed_err in He. congruence. }
+    destruct (sassoc sp (l_subs s2)) as [st|] eqn:Es.
+    - split.
+      + apply QI_drop with (sp := sp); [|apply usl_QI; auto]. rewrite usl_subs. unfold shas. rewrite Es. reflexivity.
+      + intros sp0 H0 l0 u0 Hin. apply usl_queue_In in Hin as [Hin|[-> _]]; [|contradiction].
+        rewrite Hq2 in Hin. eapply Hfr; [right; exact H0|exact Hin].
+    - split.
+      + destruct HQ2 as [A B C D F]. constructor; cbn [l_queue l_subs l_losses set_queue].
+        * apply queue_add_sorted. exact A.
+        * intros sp0 H1 H2 H3. destruct (In_dec_s sp0 [sp]) as [[<-|[]]|Hne].
+          -- exists loss. split; [rewrite K2; apply sassoc_sset_same|]. apply queue_add_In. auto.
+          -- destruct (B sp0 H1) as [l0 [G1 G2]]; auto.
+             { intros [<-|H]; [apply Hne; left; auto|auto]. }
+             exists l0. split; auto. apply queue_add_In. auto.
+        * intros l0 sp0 Hin Hs. apply queue_add_In in Hin as [Hin|Hin]; [|eauto].
+          inversion Hin; subst. rewrite K2. apply sassoc_sset_same.
+        * intros l0 sp0 u0 v Hin Hv. apply queue_add_In in Hin as [Hin|Hin]; [|eauto].
+          inversion Hin; subst. eapply (inv_range _ _ HI); eauto.
+        * exact F.
+      + intros sp0 H0 l0 u0 Hin. cbn [l_queue set_queue] in Hin. apply queue_add_In in Hin as [Hin|Hin].
+        * inversion Hin; subst. contradiction.
+        * rewrite Hq2 in Hin. eapply Hfr; [right; exact H0|exact Hin].
+  Qed.
+
+  Lemma fold_addone_QI X E ub t : Inv t -> forall todo s,
+    NoDup todo -> (forall sp, In sp todo -> In sp (simplices t)) ->
+    QI (todo ++ X) s t -> fresh todo s ->
+    l_err (fold_left (addone E ub) todo s) = None ->
+    QI X (fold_left (addone E ub) todo s) t.
+  Proof.
+    intros HI. induction todo as [|sp todo IH]; intros s Hnd Hin HQ Hfr He; cbn [fold_left app] in *; auto.
+    inversion Hnd as [|? ? Hn1 Hn2]; subst.
+    assert (He1 : l_err (addone E ub s sp) = None).
+    { destruct (fold_addone_spec E ub todo (addone E ub s sp)) as (_ & _ & _ & _ & A). cbv zeta in A. apply A; auto. }
+    destruct (addone_QI X E ub s sp todo t HI (Hin sp (or_introl eq_refl)) Hn1 HQ Hfr He1) as [G1 G2].
+    apply IH; auto. intros sp0 H0. apply Hin. right; auto.
+  Qed.
+
+  Lemma updl_QI X E s del add t :
+    let s1 := set_subs (set_losses s (fold_left (fun a sp => sdel sp a) del (l_losses s)))
+                       (fold_left (fun a sp => sdel sp a) del (l_subs s)) in
+    Inv t -> (forall sp, In sp add -> In sp (simplices t)) ->
+    QI (add ++ X) s1 t -> fresh add s ->
+    l_err (updl E s del add) = None -> QI X (updl E s del add) t.
+  Proof.
+    intros s1 HI Hadd HQ Hfr He. unfold update_losses in *. fold s1 in He |- *.
+    destruct (dedup_spec add) as [Hd1 Hd2].
+    apply fold_addone_QI; auto.
+    - intros sp H. apply Hadd, Hd1, H.
+    - eapply QI_weaken; [|exact HQ]. intros sp H. apply in_app_iff in H as [H|H]; apply in_app_iff; [left; apply Hd1|right]; auto.
+    - intros sp H. apply Hd1 in H. exact (Hfr sp H).
   Qed.
 End LNDProofs.
